@@ -12,6 +12,8 @@ prop("C01", "Assignment fidelity: the destination receives exactly the source va
     ("int_in_range_unchanged", "assign_int_in_range", "an in-range integer arrives unchanged"),
     ("uint_to_uint", "assign_uint_uint", "unsigned values into unsigned fields"),
     ("absent_source_is_noop_or_zero", "assign_absent", "an absent source (nil, the null node, a null in the document) leaves the field alone or zeroes it: never a value from elsewhere"),
+    ("vector_to_field_rule", "vector_to_field_rule", "RULE LEVEL, end to end: after a rule `obj.F = jso.path` (F a field of the destination struct of any type, path leading to a present value, no modifiers) the field holds exactly the cascade's conversion of that value -- characterised by the theorems below --, no other object and no variable changes, and the rule succeeds"),
+    ("plain_rule_is_lookup_then_write", "follow_plain_assign", "a rule `dst = src` without modifiers is Ctx.get of the source followed by Ctx.set of the destination"),
     ("static_rule_is_set_of_literal", "follow_static_assign", "a rule `dst = literal` is Ctx.set of the literal's text, wherever the rule stands"),
     ("wrap_int_range", "wrap_int_range", "narrowing stays inside the field's range"),
     ("format_parse_int_roundtrip", "format_parse_int", "printing an int64 and parsing it back is the identity (rendering on one side of an assignment, parsing on the other)"),
